@@ -22,6 +22,7 @@ Suppressions:
 """
 
 from collections.abc import Generator
+from functools import lru_cache
 from typing import Any
 
 from src.analyzers.typescript_base import TREE_SITTER_AVAILABLE
@@ -46,14 +47,19 @@ def is_single_statement(content: str, start_line: int, end_line: int) -> bool:
     if not TREE_SITTER_AVAILABLE:
         return False
 
-    from src.analyzers.typescript_base import TypeScriptBaseAnalyzer
-
-    analyzer = TypeScriptBaseAnalyzer()
-    root = analyzer.parse_typescript(content)
+    root = _parse_cached(content)
     if not root:
         return False
 
     return _check_overlapping_nodes(root, start_line, end_line)
+
+
+@lru_cache(maxsize=2)
+def _parse_cached(content: str) -> Node | None:
+    """Parse content once per file: is_single_statement is called for every candidate window of a file."""
+    from src.analyzers.typescript_base import TypeScriptBaseAnalyzer
+
+    return TypeScriptBaseAnalyzer().parse_typescript(content)
 
 
 def should_include_block(content: str, start_line: int, end_line: int) -> bool:
@@ -80,10 +86,12 @@ def _check_overlapping_nodes(root: Node, start_line: int, end_line: int) -> bool
 
 
 def _walk_nodes(node: Node) -> Generator[Node, None, None]:
-    """Generator to walk all nodes in tree."""
-    yield node
-    for child in node.children:
-        yield from _walk_nodes(child)
+    """Generator to walk all nodes in tree (pre-order, iterative: deep trees cost no extra per node)."""
+    stack = [node]
+    while stack:
+        current = stack.pop()
+        yield current
+        stack.extend(reversed(current.children))
 
 
 def _node_overlaps_and_matches(node: Node, ts_start: int, ts_end: int) -> bool:
